@@ -553,4 +553,85 @@ example : ∃ es, chain exH exMan 1 0 0 zero32 [exRec] = some es ∧
 example : verify (fun _ => List.replicate 32 5) exEntry exRec = true ∧
     verify (fun _ => List.replicate 32 5) exEntry { exRec with payload := [] } = true := by decide
 
+/-! ### the judge's clauses as model theorems -/
+
+/-- the judge's comparable tuple is exactly semantic equality -/
+theorem semOf_eq_iff (e : Entry) (r : Rec) (e' : Entry) (r' : Rec) : semOf e r = semOf e' r' ↔ SemEq e r e' r' := by
+  constructor
+  · intro h
+    simp only [semOf, Sem.mk.injEq] at h
+    obtain ⟨a1, a2, a3, a4, a5, a6, a7, a8, a9, a10, a11, a12, a13, a14, a15⟩ := h
+    exact ⟨a1, a2, a3, a4, a5, a6, a7, a8, a9, a10, a11, a12, a13, a14, a15⟩
+  · intro h
+    obtain ⟨a1, a2, a3, a4, a5, a6, a7, a8, a9, a10, a11, a12, a13, a14, a15⟩ := h
+    simp only [semOf, Sem.mk.injEq]
+    exact ⟨a1, a2, a3, a4, a5, a6, a7, a8, a9, a10, a11, a12, a13, a14, a15⟩
+
+/-- judge clauses `viol:equal-digest-different-content` / `viol:same-content-different-digest` as model
+    theorems: over the digest table of a history, equal digests of different tuples are an explicit
+    collision, and equal tuples always have equal digests -/
+theorem c05_judge_digest_table (H : Bytes → Dig) {e : Entry} {r : Rec} {e' : Entry} {r' : Rec}
+    (hw : WF e r) (hw' : WF e' r') :
+    (digest H e r = digest H e' r' → semOf e r ≠ semOf e' r' → CollideOn H (preimage e r) (preimage e' r')) ∧
+    (semOf e r = semOf e' r' → digest H e r = digest H e' r') := by
+  constructor
+  · intro hd hne
+    rcases c05_digest_binds H hw hw' hd with s | c
+    · exact absurd ((semOf_eq_iff e r e' r').mpr s) hne
+    · exact c
+  · intro hs
+    simp only [digest]
+    rw [c05_preimage_congr ((semOf_eq_iff e r e' r').mp hs)]
+
+/-- the guards look at the record only through id, index-vs-entry, epoch and timestamp -/
+theorem guards_same_content {e : Entry} {r r' : Rec} (hg : verifyGuards e r = true)
+    (hid : r'.id = r.id) (hts : r'.ts = r.ts) (hix : r'.index = 0 ∨ r'.index = e.index) (hep : r'.epoch = e.epoch) :
+    verifyGuards e r' = true := by
+  have f := c05_guards_force e r hg
+  have i1 : (r.index != 0 && r.index != e.index) = false := by
+    rcases f.1 with a | a <;> simp [a]
+  have i2 : (r'.index != 0 && r'.index != e.index) = false := by
+    rcases hix with a | a <;> simp [a]
+  have e1 : (r.epoch != e.epoch) = false := by simp [f.2.1]
+  have e2 : (r'.epoch != e.epoch) = false := by simp [hep]
+  unfold verifyGuards at hg ⊢
+  rw [i1, e1] at hg
+  rw [i2, e2, hid, hts]
+  exact hg
+
+/-- judge clause `viol:sealed-content-rejected` as a model theorem: whatever the judge calls
+    "the sealed content" (`sameSealedContent`, same identity) is accepted by verify -/
+theorem c05_accepts_same_content (H : Bytes → Dig) {e : Entry} {r r' : Rec}
+    (hv : verify H e r = true) (hs : sameSealedContent e r e r' = true) : verify H e r' = true := by
+  simp only [sameSealedContent, Bool.and_eq_true, decide_eq_true_eq, Bool.or_eq_true, beq_iff_eq] at hs
+  obtain ⟨⟨⟨_, hsem⟩, hix⟩, hep⟩ := hs
+  have s := (semOf_eq_iff e r e r').mp hsem
+  obtain ⟨hg, hd⟩ := (c05_verify_iff H e r).mp hv
+  rw [c05_verify_iff]
+  refine ⟨guards_same_content hg s.id.symm s.ts.symm hix hep, ?_⟩
+  rw [hd]; simp only [digest]; rw [c05_preimage_congr s]
+
+/-- judge clauses `viol:perturbed-content-accepted` + `viol:sealed-content-rejected` together: under a
+    sealed identity verify accepts EXACTLY the judge's `sameSealedContent` — or the two preimages collide -/
+theorem c05_judge_exact (H : Bytes → Dig) {e : Entry} {r r' : Rec} (hw : WF e r) (hw' : WF e r')
+    (hv : verify H e r = true) :
+    (verify H e r' = true ↔ sameSealedContent e r e r' = true) ∨ CollideOn H (preimage e r) (preimage e r') := by
+  by_cases hc : CollideOn H (preimage e r) (preimage e r')
+  · exact Or.inr hc
+  · refine Or.inl ⟨fun h' => ?_, c05_accepts_same_content H hv⟩
+    rcases c05_verify_exact H hw hw' hv h' with ⟨s, hix, hep⟩ | c
+    · have hsem : SemEq e r e r' := ⟨rfl, rfl, rfl, rfl, rfl, rfl, rfl, rfl, s.id, s.setting, s.sync, s.ts, s.frm, s.cmn, s.payload⟩
+      simp only [sameSealedContent, Bool.and_eq_true, decide_eq_true_eq, Bool.or_eq_true, beq_iff_eq]
+      exact ⟨⟨⟨trivial, (semOf_eq_iff e r e r').mpr hsem⟩, hix⟩, hep⟩
+    · exact absurd c hc
+
+-- non-vacuity: a no-op perturbation (record index written explicitly) is "the sealed content" and is accepted
+example : sameSealedContent exEntry exRec exEntry { exRec with index := 1 } = true := by decide
+example : verify (fun _ => List.replicate 32 5) exEntry { exRec with index := 1 } = true :=
+  c05_accepts_same_content (r := exRec) _ (by decide) (by decide)
+example : semOf exEntry exRec = semOf { exEntry with version := 9 } { exRec with index := 1 } := by decide
+example : semOf exEntry exRec ≠ semOf exEntry { exRec with payload := [] } := by decide
+-- c05_judge_exact: its hypotheses hold for the example identity; a changed payload is not the sealed content
+example : sameSealedContent exEntry exRec exEntry { exRec with payload := [] } = false := by decide
+
 end WK.C05
